@@ -15,9 +15,10 @@ EXPLANATION = (
     "are derived by the same expressions along writeable -> read-only (same storage index along the chain); "
     "(4) is_readonly()/is_mutable() are constants consistent with the class's fields (writekey <=> writeable), its "
     "interfaces (IVerifierURI => read-only, immutable; IMutableFileURI <=> mutable), its INNER_URI_CLASS and "
-    "wrap_dirnode_cap; (5) from_string: the parse of a writeable kind is dominated by can_be_writeable, of a mutable "
-    "kind by can_be_mutable; the flags start as `not deep_immutable`, 'imm.' clears both and 'ro.' clears "
-    "can_be_writeable on every path to the dispatch; (6) UnknownNode: rw_uri is stored only where deep_immutable is "
+    "wrap_dirnode_cap; (5) from_string, path by path with its locals known by what they hold (`not deep_immutable`, False, a copy "
+    "of such a local - never by their names): a writeable kind is parsed only on paths that found a local holding "
+    "`not deep_immutable` true and met neither the 'imm.' nor the 'ro.' prefix (a flag cleared to False there cuts the "
+    "path), a mutable read-only kind only on such paths that did not meet 'imm.'; both prefixes are tested; (6) UnknownNode: rw_uri is stored only where deep_immutable is "
     "false, every ro_uri stored carries the prefix its context requires, strip_prefix_for_ro removes 'imm.' only in an "
     "immutable context; (7) deep_immutable reaches uri.from_string / UnknownNode from create_from_cap and the node "
     "cache key separates the two contexts; (8) UnknownNode.__init__, path by path: a cap the path found to carry 'ro.'/'imm.' "
@@ -179,6 +180,78 @@ def _local_names(fn):
         if isinstance(x, ast.Global):
             out -= set(x.names)
     return out
+
+
+def _flag_value(vals, v, init_nf):
+    """Abstract value of an expression bound to a local: 'init' (`not <context>`), 'F' (False), a copy of a known local, else None."""
+    if isinstance(v, ast.Constant) and v.value is False:
+        return "F"
+    if isinstance(v, ast.Name):
+        return vals.get(v.id)
+    if isinstance(v, ast.NamedExpr):
+        return _flag_value(vals, v.value, init_nf)
+    try:
+        return "init" if norm_plain(v) == init_nf else None
+    except Exception:
+        return None
+
+
+def _flag_bind(vals, targets, value, init_nf, new):
+    for t in targets:
+        if isinstance(t, ast.Name):
+            new[t.id] = _flag_value(vals, value, init_nf)
+        elif isinstance(t, (ast.Tuple, ast.List)) and isinstance(value, (ast.Tuple, ast.List)) and len(t.elts) == len(value.elts):
+            for tt, vv in zip(t.elts, value.elts):
+                _flag_bind(vals, [tt], vv, init_nf, new)
+
+
+def _flag_locals(fn, di):
+    """The context flags of a parse function, by role: plain locals every definition of which is `not <context>`, a
+    boolean constant or a copy of such a local, at least one of them `not <context>` or False."""
+    init_nf = norm_src("not %s" % di)
+    defs = {}
+    for n in fn.cfg().nodes:
+        st = {x for x in node_stores(n) if "." not in x and not x.endswith("[]")}
+        if not st:
+            continue
+        got = {}
+        if n.kind == "stmt" and isinstance(n.ast, (ast.Assign, ast.AnnAssign)) and n.ast.value is not None:
+            tg = n.ast.targets if isinstance(n.ast, ast.Assign) else [n.ast.target]
+
+            def bind(ts, v):
+                for t in ts:
+                    if isinstance(t, ast.Name):
+                        got[t.id] = v
+                    elif isinstance(t, (ast.Tuple, ast.List)) and isinstance(v, (ast.Tuple, ast.List)) and len(t.elts) == len(v.elts):
+                        for tt, vv in zip(t.elts, v.elts):
+                            bind([tt], vv)
+            bind(tg, n.ast.value)
+        for x in st:
+            defs.setdefault(x, []).append(got.get(x))
+    flags = set()
+    for _round in range(len(defs) + 1):
+        nxt = set()
+        for x, vs in defs.items():
+            kinds = []
+            for v in vs:
+                if v is None:
+                    kinds.append(None)
+                elif isinstance(v, ast.Constant) and isinstance(v.value, bool):
+                    kinds.append("F" if v.value is False else "T")
+                elif isinstance(v, ast.Name) and v.id in defs:
+                    kinds.append("copy" if v.id in flags else None)
+                else:
+                    try:
+                        kinds.append("init" if norm_plain(v) == init_nf else None)
+                    except Exception:
+                        kinds.append(None)
+            if all(k is not None for k in kinds) and any(k in ("init", "F") for k in kinds) and x not in fn.params:
+                nxt.add(x)
+        if nxt == flags:
+            break
+        flags = nxt
+    return flags
+
 
 
 _CONTAINER_READS = {"get", "pop", "setdefault", "__getitem__"}
@@ -811,106 +884,90 @@ def run(ctx: Context):
             _pw["w"] = w
         return _pw["w"]
 
-    with ctx.rule("C16.5", "R3", "from_string (and the helpers it returns through): parse of a writeable kind only under "
-                  "can_be_writeable, of a mutable kind only under can_be_mutable; flags start as `not deep_immutable`, "
-                  "'imm.' clears both, 'ro.' clears can_be_writeable", expected=19) as r:
+    with ctx.rule("C16.5", "R3", "from_string (and the helpers it returns through): a writeable kind is parsed only on paths that "
+                  "found a flag true whose value there is `not deep_immutable` and that met neither alleged prefix, a mutable "
+                  "kind only on such paths that did not meet 'imm.' (the flags are the locals holding `not deep_immutable` / "
+                  "False, whatever they are called: 'imm.' must have cleared the one tested, 'ro.' the one guarding a "
+                  "writeable kind)", expected=19) as r:
         pw = parse_walk()
-        FLAGS = ("can_be_mutable", "can_be_writeable")
         by_fn = {}
         for (fn, di, n, k, call) in pw.sites:
             by_fn.setdefault(fn.qual, (fn, di, []))[2].append((n, k))
         if not by_fn and not pw.lost:
             raise AnchorVanished("no K.init_from_string(..) is returned by from_string or its helpers")
+        plain = N()
         for q in sorted(by_fn):
             (fn, di, sites) = by_fn[q]
             cfg = fn.cfg()
-            fnorm = FlowNorm(fn)
-
-            def truth_of(name, fnorm=fnorm):
-                def g(n, lab):
-                    f = fnorm.edge_fact(n, lab)
-                    return bool(f) and f[0] == "truth" and f[1] == name
-                return g
-            for (n, k) in sites:
-                r.site(fn, n.ast, k.name)
-                r.count(len(cfg.nodes))
-                target = (lambda x, _n=n: x is _n)
-                if RO[k.qual] is not True:
-                    bad = find_path_avoiding(cfg, target, gate_edge=truth_of("can_be_writeable"), kill=stores("can_be_writeable"))
-                    for (t, w) in bad:
-                        r.violation(k.qual, fn.loc(n.ast), "%s returns a writeable %s without can_be_writeable: an "
-                                    "'imm.'/'ro.' prefix or a deep-immutable context is ignored (path: %s)" % (
-                                        fn.name, k.name, w.brief()), w)
-                elif MUT[k.qual] is not False:
-                    g1, g2 = truth_of("can_be_mutable"), truth_of("can_be_writeable")
-                    bad = find_path_avoiding(cfg, target, gate_edge=lambda a, b, g1=g1, g2=g2: g1(a, b) or g2(a, b),
-                                             kill=stores_any(FLAGS))
-                    for (t, w) in bad:
-                        r.violation(k.qual, fn.loc(n.ast), "%s returns a mutable %s without can_be_mutable: an 'imm.' "
-                                    "prefix or a deep-immutable context is ignored (path: %s)" % (fn.name, k.name, w.brief()), w)
-            # flags at the dispatch
-            r.site(fn, None, "flags")
             init_nf = norm_src("not %s" % di)
 
-            def is_dispatch(n, fn=fn):
-                c = n.ast
-                if n.kind == "test" and isinstance(c, ast.Call) and call_tail(c) == "startswith" and len(c.args) == 1:
-                    try:
-                        v = F.fold(c.args[0], fn.module, None)
-                    except NotConstant:
-                        return False
-                    return isinstance(v, bytes) and v.startswith(b"URI:")
-                return False
-
-            def transfer(n, lab, nxt, st, fn=fn, di=di, init_nf=init_nf, is_dispatch=is_dispatch):
-                cbm, cbw, imm, ro = st
-                if is_dispatch(n):
-                    return None             # the flags are examined on arrival at the first dispatch test
-                if n.kind == "stmt" and isinstance(n.ast, (ast.Assign, ast.AugAssign, ast.AnnAssign)):
-                    stored = node_stores(n)
-                    val = getattr(n.ast, "value", None)
-                    if isinstance(n.ast, ast.Assign) and isinstance(val, ast.Constant) and val.value is False:
-                        a = "F"
-                    elif isinstance(n.ast, ast.Assign) and val is not None and norm_plain(val) == init_nf:
-                        a = "init"
+            # Path-wise abstract interpretation.  A local is known by what it holds, never by its name:
+            #   'init' = `not deep_immutable` (of the unchanged parameter), 'F' = False; anything else is unknown.
+            # State: (known locals, 'imm.' found, 'ro.' found, passed a truth test of a local holding 'init').
+            def transfer(n, lab, nxt, st, fn=fn, di=di, init_nf=init_nf):
+                vals_t, imm, ro, guard = st
+                vals = dict(vals_t)
+                if n.kind == "test" and isinstance(lab, tuple) and lab[0] in ("T", "F"):
+                    pt = _prefix_test(F, fn, n, PREFIX)
+                    if pt is not None:
+                        if lab[0] == "T":
+                            if pt[1] == "imm":
+                                imm = True
+                            else:
+                                ro = True
                     else:
-                        a = "?"
-                    if "can_be_mutable" in stored:
-                        cbm = a
-                    if "can_be_writeable" in stored:
-                        cbw = a
+                        f = plain.cmp(n.ast, lab[0] == "T")
+                        if f and f[0] in ("truth", "false") and f[1] in vals:
+                            a = vals[f[1]]
+                            if a == "F" and f[0] == "truth":
+                                return None         # a flag that is False is not found true: no such execution
+                            if a == "init" and f[0] == "truth":
+                                guard = True
+                stored = node_stores(n)
+                if stored:
+                    new = {}
+                    if n.kind == "stmt" and isinstance(n.ast, (ast.Assign, ast.AnnAssign)) and n.ast.value is not None:
+                        _flag_bind(vals, n.ast.targets if isinstance(n.ast, ast.Assign) else [n.ast.target], n.ast.value,
+                                   init_nf, new)
+                    for x in stored:
+                        if "." not in x and not x.endswith("[]"):
+                            vals.pop(x, None)
+                    vals.update({k_: v_ for k_, v_ in new.items() if v_ is not None})
                     if di in stored:
-                        cbm = cbw = "?"
-                pt = _prefix_test(F, fn, n, PREFIX)
-                if pt is not None and isinstance(lab, tuple) and lab[0] == "T":
-                    if pt[1] == "imm":
-                        imm = True
-                    else:
-                        ro = True
-                return (cbm, cbw, imm, ro)
-            visited, parent = explore(cfg, ("?", "?", False, False), transfer)
+                        vals, guard = {}, False     # the context itself was re-bound: nothing known any more
+                return (tuple(sorted(vals.items())), imm, ro, guard)
+
+            visited, parent = explore(cfg, ((), False, False, False), transfer)
             r.count(len(visited))
-            seen_dispatch = False
-            reported = set()
+            by_node = {}
             for (nid, st) in sorted(visited, key=lambda x: (x[0], str(x[1]))):
-                n = cfg.nodes[nid]
-                if not is_dispatch(n):
+                by_node.setdefault(nid, []).append(st)
+            for (n, k) in sites:
+                r.site(fn, n.ast, k.name)
+                writeable = RO[k.qual] is not True
+                if not writeable and MUT[k.qual] is False:
                     continue
-                seen_dispatch = True
-                cbm, cbw, imm, ro = st
-                msg = None
-                if cbm not in ("init", "F") or cbw not in ("init", "F"):
-                    msg = "the flags are not `not %s` / False (can_be_mutable=%s, can_be_writeable=%s)" % (di, cbm, cbw)
-                elif imm and (cbm != "F" or cbw != "F"):
-                    msg = "after an 'imm.' prefix the cap can still be %s" % ("mutable" if cbm != "F" else "writeable")
-                elif ro and cbw != "F":
-                    msg = "after a 'ro.' prefix the cap can still be writeable"
-                if msg and msg not in reported:
-                    reported.add(msg)
-                    w = witness(cfg, parent, (nid, st))
-                    r.violation(fn, fn.loc(n.ast), "%s reaches the dispatch where %s (path: %s)" % (fn.name, msg, w.brief()), w)
-            if not seen_dispatch:
-                raise AnchorVanished("%s dispatch not reached" % fn.name)
+                reported = set()
+                for st in by_node.get(n.id, []):
+                    (_vals, imm, ro, guard) = st
+                    if not guard:
+                        msg = "%s returns a %s %s on a path that never found a flag holding `not %s` true: a deep-immutable " \
+                              "context%s is ignored" % (fn.name, "writeable" if writeable else "mutable", k.name, di,
+                                                        " or an 'imm.'/'ro.' prefix" if writeable else " or an 'imm.' prefix")
+                    elif imm:
+                        msg = "%s returns a %s %s after the 'imm.' prefix was found: the flag guarding it was not cleared" % (
+                            fn.name, "writeable" if writeable else "mutable", k.name)
+                    elif ro and writeable:
+                        msg = "%s returns a writeable %s after the 'ro.' prefix was found: the flag guarding it was not " \
+                              "cleared" % (fn.name, k.name)
+                    else:
+                        continue
+                    if msg not in reported:
+                        reported.add(msg)
+                        w = witness(cfg, parent, (n.id, st))
+                        r.violation(k.qual, fn.loc(n.ast), "%s (path: %s)" % (msg, w.brief()), w)
+            # both alleged prefixes are examined
+            r.site(fn, None, "prefix tests")
             pts = {(_prefix_test(F, fn, n, PREFIX) or (None, None))[1] for n in cfg.nodes}
             r.require({"imm", "ro"} <= pts, fn, fn.loc(), "%s does not test both alleged prefixes" % fn.name)
 
@@ -1323,13 +1380,13 @@ def run(ctx: Context):
                   "UnknownNode and the node maker drop the cap only when the error says so", expected=1) as r:
         pw = parse_walk()
         unk = idx.cls("uri:UnknownURI")
-        FLAGS = ("can_be_mutable", "can_be_writeable")
         n_refusals = 0
         gated = sorted({fn.qual for (fn, di, n, k, call) in pw.sites if RO[k.qual] is not True or MUT[k.qual] is not False})
         for q in gated:
             (fn, di) = pw.funcs[q]
             cfg = fn.cfg()
             fnorm = FlowNorm(fn)
+            FLAGS = _flag_locals(fn, di)        # by role (what they are bound to), not by name
 
             def kind_test(n, fn=fn):
                 """A test `x.startswith(<constant bytes>)` that is not one of the two alleged prefixes."""
@@ -1342,7 +1399,7 @@ def run(ctx: Context):
                     return isinstance(v, bytes) and v not in PREFIX.values()
                 return False
 
-            def transfer(n, lab, nxt, st, fnorm=fnorm, kind_test=kind_test):
+            def transfer(n, lab, nxt, st, fnorm=fnorm, kind_test=kind_test, FLAGS=FLAGS):
                 # a refusal = "this kind's prefix test held" and "the flag is false" established next to each other, i.e.
                 # with no other kind test in between (in either order: `K and not flag`, `not flag and K`, nested ifs)
                 pending, refused, nones = st
